@@ -25,6 +25,12 @@ Check (C13_id_is_stable) : (forall r o name id, bget name (lane_ids r) = Some id
 Print Assumptions C13_id_is_stable.
 Check (C13_ids_never_collide) : (forall ops name1 name2 id, let r := rocks_run_state rocks0 ops in bget name1 (lane_ids r) = Some id -> bget name2 (lane_ids r) = Some id -> name1 = name2).
 Print Assumptions C13_ids_never_collide.
+Check (C13_ids_invariant_with_kills) : (forall hs, ids_inv (hrun_state rocks0 hs)).
+Print Assumptions C13_ids_invariant_with_kills.
+Check (C13_id_survives_a_kill) : (forall r k o name id, bget name (lane_ids r) = Some id -> bget name (lane_ids (rocks_kill r k o)) = Some id).
+Print Assumptions C13_id_survives_a_kill.
+Check (C13_ids_never_collide_with_kills) : (forall hs name1 name2 id, let r := hrun_state rocks0 hs in bget name1 (lane_ids r) = Some id -> bget name2 (lane_ids r) = Some id -> name1 = name2).
+Print Assumptions C13_ids_never_collide_with_kills.
 Check (C13_F1_name_not_injective_refuted) : (exists a n a' n', (a, n) <> (a', n') /\ lane_name a n = lane_name a' n').
 Print Assumptions C13_F1_name_not_injective_refuted.
 Check (C13_wf_kept) : (forall ks id k v, WF ks -> U56 id -> WF (bput (ser_map_key id k) v ks) /\ WF (bdel (ser_map_key id k) ks) /\ WF (delete_range ks (ser_map_prefix id) (ser_map_ubound id))).
